@@ -208,3 +208,54 @@ func VerifReleaseOverflow() {
 	verifAssert(!(pre && p >= newEnd && p < end) || !post, "every free page in the released tail is removed from the list")
 	verifReach("end")
 }
+
+// VerifTryGrow (G-ALLOC step lemma, C04/C11): metaManager.tryGrow from an
+// arbitrary allocator state (symbolic maximum, end markers, one optional free
+// data region), with and without the overflow area.  Every page that becomes a
+// meta page is taken away from the data allocator: afterwards no page that the
+// data allocator can still hand out (free list, or the unused tail between its
+// end marker and the maximum) belongs to the meta area.
+func VerifTryGrow() {
+	maxPages := uint(verifU64("max"))
+	end := PageID(verifU64("end"))
+	verifAssume(maxPages >= 8 && maxPages < 1<<30)
+	verifAssume(end >= 2 && uint(end) <= maxPages)
+	a := &allocator{maxPages: maxPages, pageSize: verifPageSize, maxSize: maxPages * verifPageSize}
+	a.data.endMarker, a.meta.endMarker = end, end
+	dl := symList("d", verifParam("regions", 1), 8)
+	for _, r := range dl {
+		verifAssume(r.id+PageID(r.count) <= end)
+	}
+	a.data.freelist.regions, a.data.freelist.avail = dl, dl.CountPages()
+	count := uint(1 + verifChoose(verifParam("maxcount", 3)))
+	overflow := verifBool("overflow")
+	st := a.makeTxAllocState(overflow, 0)
+	availBefore := a.DataAllocator().Avail(&st)
+	p := PageID(verifU64("p")) // generic page
+
+	ok := a.metaManager().tryGrow(&st, count, overflow)
+
+	if overflow || availBefore >= count {
+		verifAssert(ok, "the meta area grows whenever the data area (or the overflow area) can provide the pages")
+	}
+	if !ok {
+		verifReach("end")
+		return
+	}
+	verifAssert(a.metaTotal == count, "the meta area grew by exactly the requested number of pages")
+	listInv(a.meta.freelist.regions, count, "meta free list after the growth")
+	listInv(a.data.freelist.regions, a.data.freelist.avail, "data free list after the growth")
+	verifAssert(a.meta.endMarker >= a.data.endMarker, "the meta end marker is not below the data end marker")
+	inMeta := listHas(a.meta.freelist.regions, p)
+	inDataFree := listHas(a.data.freelist.regions, p)
+	inTail := verifAnd(p >= a.data.endMarker, uint(p) < maxPages)
+	verifAssert(!verifAnd(inMeta, inDataFree), "no page is free in both areas")
+	verifAssert(!verifAnd(inMeta, inTail), "no meta page lies in the part of the file the data area can still grow into")
+	verifAssert(!inMeta || p >= 2, "no header page in the meta area")
+	if availBefore >= count {
+		verifAssert(a.DataAllocator().Avail(&st) == availBefore-count, "exactly the moved pages left the data allocator")
+	} else {
+		verifAssert(a.DataAllocator().Avail(&st) == 0, "the data area was drained before the overflow area was used")
+	}
+	verifReach("end")
+}
